@@ -18,6 +18,9 @@
 #include "vx_runner.hpp"
 #include <zlib.h>
 #include <sys/prctl.h>
+#include <elf.h>
+#include <sys/syscall.h>
+#include <link.h>
 #include <sys/time.h>
 #include <cmath>
 #include <cstdarg>
@@ -55,6 +58,11 @@ static bool ubsan_pending() { return false; }
 static std::string take_ubsan_report() { return std::string(); }
 #endif
 
+static std::string slurp_file(const std::string& p)
+{
+   std::ifstream in(p, std::ios::binary);
+   return std::string((std::istreambuf_iterator<char>(in)), std::istreambuf_iterator<char>());
+}
 struct NullBuf : std::streambuf
 {
    int overflow(int c) override { return c; }
@@ -278,7 +286,7 @@ struct Feat
 {
    const char* reader = "lp";
    bool lineOver8191 = false, lineOver16383 = false, lineOver255 = false, lineOver1023 = false, hasNul = false, empty = false,
-        noEndata = true, hasReal = false, hasLimit = false;
+        noEndata = true, hasReal = false, hasLimit = false, zeroDen = false, hugeExp = false;
 };
 static Feat features(const Case& c, const std::string& d)
 {
@@ -306,6 +314,25 @@ static Feat features(const Case& c, const std::string& d)
    f.hasNul = d.find('\0') != std::string::npos;
    f.hasReal = d.find("real") != std::string::npos;
    f.hasLimit = d.find("limit") != std::string::npos;
+   for(size_t i = 0; i + 1 < d.size(); ++i)
+   {
+      // "/0", "/00", ... not followed by another digit: a rational literal with denominator zero
+      if(d[i] == '/' && d[i + 1] == '0')
+      {
+         size_t j = i + 1;
+         while(j < d.size() && d[j] == '0') ++j;
+         if(j >= d.size() || !isdigit((unsigned char)d[j])) f.zeroDen = true;
+      }
+      // digit or dot, 'e', optional sign, at least four digits: a decimal exponent of 1000 or more
+      if((d[i + 1] == 'e' || d[i + 1] == 'E') && (isdigit((unsigned char)d[i]) || d[i] == '.'))
+      {
+         size_t j = i + 2;
+         if(j < d.size() && (d[j] == '+' || d[j] == '-')) ++j;
+         size_t k = j;
+         while(k < d.size() && isdigit((unsigned char)d[k])) ++k;
+         if(k - j >= 4) f.hugeExp = true;
+      }
+   }
    return f;
 }
 
@@ -321,6 +348,8 @@ static std::string suffix_of(const Case& c, const Feat& f, int stage)
    if(c.gztrunc >= 0 || c.gzsub.first >= 0) s += "/gzfault";
    if(!strcmp(f.reader, "lp") && f.lineOver8191) s += "+line>8191";
    if((!strcmp(f.reader, "mps") || !strcmp(f.reader, "bas")) && f.noEndata) s += "+eof-before-ENDATA";
+   if(c.mode && f.zeroDen && (c.fmt == LP || c.fmt == MPS)) s += "+zero-denominator";
+   if(f.hugeExp && c.fmt != BAS) s += "+exponent>=1000";
    s += std::string("/stage=") + STAGE[stage < 9 ? stage : 0];
    return s;
 }
@@ -584,7 +613,8 @@ static void run_core(const Case& c, const Feat& ft, const char* path, const char
    {
       int r3 = guarded(o, ST_OPT2, [&]() { o.st2 = (int)s->optimize(); });
       h = hi(h, o.st2);
-      if(r3 == 1) add_viol(o, ST_OPT2, "valid-file-not-solved", "SPxException escaped from optimize() of the valid reference problem");
+      if(r3 == 1 && c.fmt == SET && (ft.hasLimit || ft.hasReal)) {}   // tolerances / limits from the settings file: anything that is not a crash is acceptable
+      else if(r3 == 1) add_viol(o, ST_OPT2, "valid-file-not-solved", "SPxException escaped from optimize() of the valid reference problem");
       else if(r3 == 0)
       {
          if(c.fmt == SET)
@@ -629,18 +659,94 @@ static const Case* g_case = nullptr;
 static Feat g_ft;
 static std::string g_cs;
 
+// ---- symbol lookup without an external symbolizer: the ELF symbol table of the executable itself -----------
+struct Sym { uint64_t addr, size; std::string name; };
+static std::vector<Sym> g_syms;
+static uint64_t g_base = 0;
+static int phdr_cb(struct dl_phdr_info* info, size_t, void* data)
+{
+   *(uint64_t*)data = info->dlpi_addr;     // first entry is the main executable
+   return 1;
+}
+static void load_symbols()
+{
+   if(!g_syms.empty()) return;
+   dl_iterate_phdr(phdr_cb, &g_base);
+   std::string img = slurp_file("/proc/self/exe");
+   if(img.size() < sizeof(Elf64_Ehdr)) return;
+   const Elf64_Ehdr* eh = (const Elf64_Ehdr*)img.data();
+   if(memcmp(eh->e_ident, ELFMAG, SELFMAG) != 0 || eh->e_shoff == 0) return;
+   const Elf64_Shdr* sh = (const Elf64_Shdr*)(img.data() + eh->e_shoff);
+   for(int i = 0; i < eh->e_shnum; ++i)
+   {
+      if(sh[i].sh_type != SHT_SYMTAB) continue;
+      const Elf64_Sym* st = (const Elf64_Sym*)(img.data() + sh[i].sh_offset);
+      size_t n = sh[i].sh_size / sizeof(Elf64_Sym);
+      const char* str = img.data() + sh[sh[i].sh_link].sh_offset;
+      for(size_t k = 0; k < n; ++k)
+         if(ELF64_ST_TYPE(st[k].st_info) == STT_FUNC && st[k].st_value && st[k].st_size)
+            g_syms.push_back({st[k].st_value, st[k].st_size, str + st[k].st_name});
+   }
+   std::sort(g_syms.begin(), g_syms.end(), [](const Sym & a, const Sym & b) { return a.addr < b.addr; });
+}
+static std::string function_at(void* pc)
+{
+   uint64_t a = (uint64_t)pc - g_base;
+   size_t lo = 0, hi = g_syms.size();
+   while(lo < hi) { size_t m = (lo + hi) / 2; if(g_syms[m].addr <= a) lo = m + 1; else hi = m; }
+   if(lo == 0) return "?";
+   const Sym& sy = g_syms[lo - 1];
+   if(a >= sy.addr + sy.size) return "?";
+   int st = 0;
+   char* dm = abi::__cxa_demangle(sy.name.c_str(), 0, 0, &st);
+   std::string r = (st == 0 && dm) ? short_fn(dm) : sy.name;
+   free(dm);
+   return r;
+}
+
 #ifdef VX_ASAN
 extern "C" void __asan_set_error_report_callback(void (*)(const char*));
-extern "C" const char* __asan_default_options() { return "quarantine_size_mb=8:malloc_context_size=6:detect_stack_use_after_return=0"; }
+extern "C" void* __asan_get_report_address();
+extern "C" const char* __asan_locate_address(void* addr, char* name, size_t name_size, void** region_address, size_t* region_size);
+// External symbolizer only when a single case is replayed for a human; the enumeration itself resolves the faulting
+// function from the ELF symbol table (no helper process whose pipe could get out of step when a case process is killed).
+// (called by the sanitizer runtime before anything is initialised: raw system calls and hand-written loops only)
+extern "C" __attribute__((no_sanitize("address", "undefined"))) const char* __asan_default_options()
+{
+   static char b[4096];
+   long fd = syscall(SYS_open, "/proc/self/cmdline", O_RDONLY);
+   long n = 0;
+   if(fd >= 0)
+   {
+      n = syscall(SYS_read, fd, b, sizeof b - 1);
+      syscall(SYS_close, fd);
+   }
+   bool replay = false;
+   static const char pat[] = "--replay";
+   for(long i = 0; i + 8 <= n; ++i)
+   {
+      int k = 0;
+      while(k < 8 && b[i + k] == pat[k]) ++k;
+      if(k == 8) replay = true;
+   }
+   return replay ? "quarantine_size_mb=8:malloc_context_size=6:detect_stack_use_after_return=0:symbolize=1"
+          : "quarantine_size_mb=8:malloc_context_size=6:detect_stack_use_after_return=0:symbolize=0";
+}
 // the case process stops at the first AddressSanitizer report: the faulting access has not been executed yet, so
 // nothing runs on corrupted memory and the signature is the one of the first error
 static void on_asan_report(const char*)
 {
-   std::string ar = take_asan_report();
-   if(ar.empty()) ar = "asan:unknown-report";
+   g_asan_report[0] = 0;
+   std::string sig = std::string("asan:") + __asan_get_report_description() + ":" + (__asan_get_report_access_type() ? "write" : "read") + ":" + function_at(__asan_get_report_pc());
+   char var[128];
+   var[0] = 0;
+   void* ra = 0;
+   size_t rs = 0;
+   const char* kind = __asan_locate_address(__asan_get_report_address(), var, sizeof var, &ra, &rs);
+   if(kind && !strcmp(kind, "stack") && var[0]) sig += std::string("[") + var + ":" + std::to_string(rs) + "]";
    if(g_ctx && g_case)
    {
-      g_ctx->violation(ar + suffix_of(*g_case, g_ft, g_stage ? *g_stage : ST_READ), g_cs, "AddressSanitizer report (the case process stops at the first report; replay prints it)");
+      g_ctx->violation(sig + suffix_of(*g_case, g_ft, g_stage ? *g_stage : ST_READ), g_cs, "AddressSanitizer report (the case process stops at the first report; replay prints it)");
       g_ctx->count("cases_stopped_at_first_asan_report");
       g_ctx->flushDelta();
    }
@@ -658,11 +764,7 @@ static void ensure_paths(const std::string& outdir)
    g_validLP = outdir + "/valid.lp";
    g_validMPS = outdir + "/valid.mps";
    g_stage = (volatile int*)mmap(0, 4096, PROT_READ | PROT_WRITE, MAP_SHARED | MAP_ANONYMOUS, -1, 0);
-#ifdef VX_ASAN
-   // start the symbolizer once per worker; the case processes inherit its pipes instead of starting their own
-   char fn[128];
-   __sanitizer_symbolize_pc((void*)&ensure_paths, "%f", fn, sizeof fn);
-#endif
+   load_symbols();
 }
 
 // ---- case process ------------------------------------------------------------------------------------
@@ -1130,13 +1232,13 @@ int main(int argc, char** argv)
          return c;
       };
       fams.push_back(f);
-      // one level deeper: quick = all sequences of length klp+1 at the start of the constraints section; thorough = all sequences
-      // of length klp+1 over a 20-letter sub-alphabet at the start of the file and at the start of the constraints section
+      // one level deeper: all sequences of length klp+1 over a 20-letter sub-alphabet at the start of the constraints section
+      // (thorough: also at the start of the file)
       static const std::vector<int> R20 = {0, 1, 2, 3, 5, 6, 7, 8, 9, 10, 12, 13, 15, 16, 18, 20, 22, 23, 24, 25};
       int k2 = klp + 1;
-      uint64_t A = T_LP.size(), A2 = thorough ? R20.size() : A, S2 = ipow(A2, k2), nc2 = thorough ? 2 : 1;
+      uint64_t A = T_LP.size(), A2 = R20.size(), S2 = ipow(A2, k2), nc2 = thorough ? 2 : 1;
       Family g;
-      g.name = "LP tokens k=" + std::to_string(k2) + (thorough ? " (20-letter alphabet) x {start, constraints} x 2 modes" : " x {constraints} x 2 modes");
+      g.name = "LP tokens k=" + std::to_string(k2) + " (20-letter alphabet) x " + (thorough ? "{start, constraints}" : "{constraints}") + " x 2 modes";
       g.N = S2 * nc2 * 2;
       g.gen = [ = ](uint64_t idx)
       {
@@ -1145,7 +1247,7 @@ int main(int argc, char** argv)
          c.mode = idx % 2; idx /= 2;
          int cx = (nc2 == 1 || idx % 2) ? 2 : 0; idx /= nc2;
          std::vector<int> t(k2);
-         for(int i = 0; i < k2; ++i) { t[i] = int(idx % A2); idx /= A2; if(thorough) t[i] = R20[t[i]]; }
+         for(int i = 0; i < k2; ++i) { t[i] = R20[idx % A2]; idx /= A2; }
          c.data = render_lp(LPCTX[cx], cx == 2, t);
          return c;
       };
